@@ -42,6 +42,22 @@ type c13case struct {
 	// number) — what a parallel reader stage delivers from run to run
 	Batch    int     `json:"batch"`
 	Arrivals [][]int `json:"arrivals"`
+	// round 3: how the sample table reaches the code.  Form "" : merged_<tag> as map[string]int; "iface": as
+	// map[string]interface{} holding float64 / int values (what a JSON header parser leaves); "stats": as
+	// obiseq.StatsOnValues (what obiuniq leaves in memory); "attr": no merged table, the attribute <tag> itself
+	// (string, or int when the sample name is a number) and count (sequences of exactly one sample; a sequence of
+	// sample "NA" carries no attribute at all): StatsOn has to build the table; "attrbad": the same with a merged_<tag>
+	// slot holding a string.  Tag "" = "sample".
+	Form string `json:"form"`
+	Tag  string `json:"tag"`
+	// Prior: the cli path first runs CLIOBIClean with these settings on the SAME objects (a history of two calls:
+	// the second run must describe its own graph only)
+	Prior *c13prior `json:"prior"`
+}
+
+type c13prior struct {
+	Dist  int     `json:"dist"`
+	Ratio float64 `json:"ratio"`
 }
 
 type c13annot struct {
@@ -82,8 +98,16 @@ type c13obs struct {
 	Distinct []c13result `json:"distinct"`
 }
 
+func c13tag(c c13case) string {
+	if c.Tag == "" {
+		return "sample"
+	}
+	return c.Tag
+}
+
 func c13db(c c13case) obiseq.BioSequenceSlice {
 	db := obiseq.MakeBioSequenceSlice()
+	tag := c13tag(c)
 	for _, s := range c.Seqs {
 		bs := obiseq.NewBioSequence(s.Id, []byte(s.Seq), "")
 		m := make(map[string]int, len(s.Counts))
@@ -92,7 +116,42 @@ func c13db(c c13case) obiseq.BioSequenceSlice {
 			m[k] = v
 			tot += v
 		}
-		bs.SetAttribute("merged_sample", m)
+		switch c.Form {
+		case "iface":
+			mi := make(map[string]interface{}, len(m))
+			n := 0
+			for k, v := range m {
+				if n%2 == 0 {
+					mi[k] = float64(v)
+				} else {
+					mi[k] = v
+				}
+				n++
+			}
+			bs.SetAttribute("merged_"+tag, mi)
+		case "stats":
+			sv := make(obiseq.StatsOnValues, len(m))
+			for k, v := range m {
+				sv[k] = v
+			}
+			bs.SetAttribute("merged_"+tag, sv)
+		case "attr", "attrbad":
+			if c.Form == "attrbad" {
+				// a merged_<tag> slot that is not a table: StatsOn replaces it by the table built from the attribute
+				bs.SetAttribute("merged_"+tag, "not a table")
+			}
+			for k := range m { // exactly one sample (the generator guarantees it)
+				if k != "NA" {
+					if n, err := strconv.Atoi(k); err == nil && strconv.Itoa(n) == k {
+						bs.SetAttribute(tag, n)
+					} else {
+						bs.SetAttribute(tag, k)
+					}
+				}
+			}
+		default:
+			bs.SetAttribute("merged_"+tag, m)
+		}
 		bs.SetCount(tot)
 		db = append(db, bs)
 	}
@@ -180,15 +239,20 @@ func c13once(c c13case, path string, workers int, arrival ...[]int) (res c13resu
 		}
 	}()
 	db := c13db(c)
+	tag := c13tag(c)
 	if path == "graph" {
-		g := obiclean.VerifBuildGraph(db, "sample", c.Dist, workers, c.Ratio)
+		g := obiclean.VerifBuildGraph(db, tag, c.Dist, workers, c.Ratio)
 		return c13result{Graph: g, Annot: c13annots(db)}
 	}
+	if c.Prior != nil {
+		// an earlier run on the same objects (every sequence is kept: no --head); its output objects are the input of the run observed
+		db = obiclean.VerifCLIOBIClean(db, tag, c.Prior.Dist, workers, c.Prior.Ratio, false)
+	}
 	if len(arrival) > 0 {
-		out := obiclean.VerifCLIOBICleanIter(c13iter(db, c.Batch, arrival[0]), "sample", c.Dist, workers, c.Ratio, c.Head)
+		out := obiclean.VerifCLIOBICleanIter(c13iter(db, c.Batch, arrival[0]), tag, c.Dist, workers, c.Ratio, c.Head)
 		return c13result{Annot: c13annots(out, true), order: c13ids(out)}
 	}
-	out := obiclean.VerifCLIOBIClean(db, "sample", c.Dist, workers, c.Ratio, c.Head)
+	out := obiclean.VerifCLIOBIClean(db, tag, c.Dist, workers, c.Ratio, c.Head)
 	return c13result{Annot: c13annots(out, true), order: c13ids(out)}
 }
 
